@@ -8,7 +8,9 @@ package c18
 // applies the fault plan, addressed by (direction, unit index in that direction).
 
 import (
+	"errors"
 	"fmt"
+	"io"
 	"sync"
 	"time"
 
@@ -125,6 +127,7 @@ type mbox struct {
 	failAttempts  [][2]int // (side, attempts) whenever a side closed its socket first while it was sending
 	masterYielded string
 	parseErrs     []string
+	resyncs       int // units whose kind the byte decided against the tracker
 	blockTx       map[string]int // transmissions per (gen, dir, header)
 }
 
@@ -147,6 +150,13 @@ func (m *mbox) attach(pe, ph *sim.Conn) {
 	go m.relay(dHE, ph, pe, g)
 }
 
+// busy reports whether the side is in the middle of a block send as far as the line shows.
+func (m *mbox) busy(d int) bool {
+	m.mu.Lock()
+	defer m.mu.Unlock()
+	return m.live && m.sending[d]
+}
+
 func (m *mbox) isLive() bool {
 	m.mu.Lock()
 	defer m.mu.Unlock()
@@ -166,7 +176,22 @@ func (m *mbox) shutdown() {
 	}
 }
 
+type queued struct {
+	u    unit
+	data []byte
+}
+
+// relay runs one direction of one link generation: this goroutine READS (it is never held
+// up, so what a library does is seen when it does it) and cuts the stream into units; a
+// second goroutine applies the fault plan and delivers the units in order.
 func (m *mbox) relay(d int, src, dst *sim.Conn, gen int) {
+	q := make(chan queued, 4096)
+	go func() {
+		for it := range q {
+			m.forward(d, it.u, it.data, dst, gen)
+		}
+		_ = dst.Close()
+	}()
 	buf := make([]byte, 1024)
 	var acc []byte
 	for {
@@ -179,19 +204,21 @@ func (m *mbox) relay(d int, src, dst *sim.Conn, gen int) {
 					break
 				}
 				acc = acc[len(data):]
-				m.forward(d, u, append([]byte(nil), data...), dst, gen)
+				q <- queued{u, append([]byte(nil), data...)}
 			}
 		}
 		if err != nil {
 			m.mu.Lock()
 			if m.gen == gen {
-				if m.live && m.sending[d] {
+				// io.EOF: the library closed its socket on its own; if it was in the middle of a
+				// block send, that is the RTY-exhausted teardown
+				if errors.Is(err, io.EOF) && m.sending[d] {
 					m.failAttempts = append(m.failAttempts, [2]int{d, m.attempts[d]})
 				}
 				m.live = false
 			}
 			m.mu.Unlock()
-			_ = dst.Close()
+			close(q)
 			_ = src.Close()
 			return
 		}
@@ -203,8 +230,23 @@ func (m *mbox) relay(d int, src, dst *sim.Conn, gen int) {
 func (m *mbox) cut(d int, acc []byte, gen int) (unit, []byte, bool) {
 	m.mu.Lock()
 	defer m.mu.Unlock()
-	if m.blockMd[d] {
-		n := int(acc[0])
+	c := acc[0]
+	handshake := c == e4.ENQ || c == e4.EOT || c == e4.ACK || c == e4.NAK
+	// The tracker says when a block is due (the side has an ENQ outstanding and an EOT was
+	// delivered to it). It can be behind: an EOT delivered BEFORE the side's next ENQ is still
+	// unread in its socket and is taken as the grant afterwards. The byte itself then decides:
+	// lengths 4, 5, 6 do not exist, and no message of this harness has a block of length 21.
+	isBlock := m.blockMd[d]
+	if isBlock && handshake {
+		m.resyncs++
+		isBlock = false
+	}
+	if !isBlock && !handshake && c >= 10 && c <= 254 {
+		m.resyncs++
+		isBlock = true
+	}
+	if isBlock {
+		n := int(c)
 		if n >= 10 && n <= 254 {
 			if len(acc) < 1+n+2 {
 				return unit{}, nil, false
@@ -386,23 +428,29 @@ func (m *mbox) snapshot() (trace []unit, maxAtt [2]int, failAtt [][2]int, master
 }
 
 // checkChunks cross-checks the relay's protocol-driven unit boundaries against the
-// write boundaries the simulated sockets recorded (one library Write = one unit).
-func (m *mbox) checkChunks(chunks [2][]sim.Chunk) string {
+// write boundaries the simulated sockets recorded (one library Write = one unit), per
+// link generation (writes a library made after the relay had gone are not units).
+func (m *mbox) checkChunks(chunks [2][][]sim.Chunk) string {
 	m.mu.Lock()
 	defer m.mu.Unlock()
 	for d := 0; d < 2; d++ {
-		i := 0
+		next := map[int]int{}
 		for _, u := range m.trace {
 			if u.Dir != d {
 				continue
 			}
-			if i >= len(chunks[d]) {
-				return fmt.Sprintf("%s: unit %d has no matching write", dirName(d), u.Idx)
+			g := u.Gen - 1
+			if g < 0 || g >= len(chunks[d]) {
+				return fmt.Sprintf("%s: unit %d belongs to unknown generation %d", dirName(d), u.Idx, u.Gen)
 			}
-			if len(chunks[d][i].Data) != u.Len {
-				return fmt.Sprintf("%s: unit %d is %d bytes but the library's write #%d was %d bytes", dirName(d), u.Idx, u.Len, i, len(chunks[d][i].Data))
+			i := next[g]
+			next[g]++
+			if i >= len(chunks[d][g]) {
+				return fmt.Sprintf("%s: unit %d (gen %d) has no matching write", dirName(d), u.Idx, u.Gen)
 			}
-			i++
+			if len(chunks[d][g][i].Data) != u.Len {
+				return fmt.Sprintf("%s: unit %d (gen %d) is %d bytes but the library's write #%d was %d bytes", dirName(d), u.Idx, u.Gen, u.Len, i, len(chunks[d][g][i].Data))
+			}
 		}
 	}
 	return ""
